@@ -121,3 +121,16 @@ pub mod op {
     pub const REGISTER_UPVALUE: u8 = I::RegisterUpvalue as u8;
     pub const CLOSE_UPVALUE: u8 = I::CloseUpvalue as u8;
 }
+
+static SKIP_ERROR_TRACE: std::sync::atomic::AtomicBool = std::sync::atomic::AtomicBool::new(false);
+
+/// When set, runtime errors are returned without their source trace (the trace lookup and the
+/// cloning of trace entries dominate symbolic execution of every error path; harnesses that do
+/// not look at error locations switch it off)
+pub fn set_skip_error_trace(skip: bool) {
+    SKIP_ERROR_TRACE.store(skip, Ordering::Relaxed);
+}
+
+pub fn skip_error_trace() -> bool {
+    SKIP_ERROR_TRACE.load(Ordering::Relaxed)
+}
